@@ -65,6 +65,16 @@ CLAIMED["C09"] = dict(
     technique="static analysis: MIR protocol / sibling-agreement / provenance rules + rustdoc compile_fail witnesses with compiling twins")
 WITNESS_PROPS.append("C09")
 
+CLAIMED["C06"] = dict(
+    level=("Static decision over the resolved MIR of the scalar layer: the five integer-parsing functions use only checked 128-bit "
+           "arithmetic, widening casts and fallible TryFrom narrowing (every returned value derives from try_from); the 12 typed "
+           "entry points call the parser instantiated at their own type, pass their own label and cfg switch, and hand the value "
+           "to the matching visit_X; the bool / null / special-float literal sets, their polarity and the radix prefixes equal the "
+           "documented tables; non-plain scalars are never null-like / number-like; Cfg::from_options wires each switch to its own "
+           "option and each switch is read only in its documented functions; base64 padding masks, length and pad-position checks "
+           "reject. Not decided: the mathematically exact value for every token, float parsing (core's str::parse)."),
+    note=_NOTE, technique="static analysis: MIR arithmetic-discipline, literal-table extraction / agreement, option-wiring and guard-dominance rules")
+
 NOT_APPLICABLE = {("C%02d" % i): _NB for i in range(1, 21) if ("C%02d" % i) not in CLAIMED}
 
 CLAIMED["C10"] = dict(
@@ -113,5 +123,15 @@ CLAIMED["C09"] = dict(
     note=_NOTE + " The witnesses additionally trust rustdoc's compile_fail doctest runner (nightly).",
     technique="static analysis: MIR protocol / sibling-agreement / provenance rules + rustdoc compile_fail witnesses with compiling twins")
 WITNESS_PROPS.append("C09")
+
+CLAIMED["C06"] = dict(
+    level=("Static decision over the resolved MIR of the scalar layer: the five integer-parsing functions use only checked 128-bit "
+           "arithmetic, widening casts and fallible TryFrom narrowing (every returned value derives from try_from); the 12 typed "
+           "entry points call the parser instantiated at their own type, pass their own label and cfg switch, and hand the value "
+           "to the matching visit_X; the bool / null / special-float literal sets, their polarity and the radix prefixes equal the "
+           "documented tables; non-plain scalars are never null-like / number-like; Cfg::from_options wires each switch to its own "
+           "option and each switch is read only in its documented functions; base64 padding masks, length and pad-position checks "
+           "reject. Not decided: the mathematically exact value for every token, float parsing (core's str::parse)."),
+    note=_NOTE, technique="static analysis: MIR arithmetic-discipline, literal-table extraction / agreement, option-wiring and guard-dominance rules")
 
 NOT_APPLICABLE = {("C%02d" % i): _NB for i in range(1, 21) if ("C%02d" % i) not in CLAIMED}
